@@ -1,6 +1,7 @@
 import Csverif.Model.Path
 /-
-Model of `cloudsync/hierarchical_cache.py` (Node 17-99, HierarchicalCache 102-471).
+Model of `cloudsync/hierarchical_cache.py` (Node 17-99, HierarchicalCache 102-475), as of the commit that
+evicts the previous owners of path and id before resolving the parent (`__insert_node`, `_set_oid`).
 
 Hand-written, branch by branch.  The cache is modelled exactly as the code has it: a *heap* of node
 records (index = object identity; allocation appends, nothing is ever freed) with `name`, `type`,
@@ -14,7 +15,9 @@ Conventions
   mutations made before it in place, exactly as in Python.
 * Recursion that Python bounds by its stack is bounded by fuel computed from the heap / path size;
   running out of fuel is the error `fuel` (resp. `recursion` where Python itself would recurse
-  forever, i.e. on a parent cycle).  Props/C19.lean proves neither can happen in a coherent cache.
+  forever, i.e. on a parent cycle; the driver prints both as RecursionError: the only way to exhaust
+  `delete`'s budget is a non-root node carrying the root's id, on which Python recurses for ever too).  Props/C19.lean proves neither can happen for a guarded
+  operation on a coherent cache (`no_budget_exhaustion`, `delete_terminates`, `coherent_acyclic`).
 * Metadata never changes control flow for `metadata=None`/`{}` (the only values the harness passes),
   so it is left out.  `log.debug(...)` arguments are evaluated eagerly by Python; where they call
   `full_path()` (which asserts) the model evaluates it too.
@@ -49,7 +52,7 @@ inductive Err where
   | value       -- ValueError (`_rename` of the root 377, `_get_node` without arguments 408)
   | assertion   -- AssertionError (`Node.check` 53-54, `add_child` 95, `__insert_node` 215, `set_oid` 418)
   | attr        -- AttributeError: `remove_node.parent.children` with `parent` None (338)
-  | type        -- TypeError: `normalize_path(None)` in `_set_oid` (435) when `full_path()` is None
+  | type        -- TypeError: `normalize_path(None)` in `_set_oid` (439) when `full_path()` was None
   | recursion   -- RecursionError: `_full_path_nodes` on a parent cycle
   | fuel        -- model artefact: recursion budget exhausted (proved unreachable when coherent)
   deriving Repr, DecidableEq
@@ -320,10 +323,14 @@ def makeNodeWith (c : Cfg) (ins : Nat → Str → M Unit) (otype : OType) (path 
   checkFull c i
   pure i
 
-/-- `__insert_node` (207-229); the parent is auto-created through `_mkdir(parent_path, None)` -/
+/-- `__insert_node` (207-231): the previous owners of the path and of the id are evicted first, then the
+    parent is looked up / auto-created through `_mkdir(parent_path, None)` -/
 def insertNode (c : Cfg) : Nat → Nat → Str → M Unit
   | 0, _, _ => raise .fuel
   | f + 1, i, path => do
+    delete c none (some path)
+    let s ← getS
+    (if truthy (s.nd i).oid then delete c (s.nd i).oid none else pure ())
     let (pp, name) := hsplit c path
     let pn ← getNodeM c none (some pp)
     let s ← getS
@@ -333,9 +340,6 @@ def insertNode (c : Cfg) : Nat → Nat → Str → M Unit
     modS (fun s => s.setNd i { s.nd i with name := name })
     if par = i then raise .assertion else
       modS (fun s => s.setNd i { s.nd i with parent := some par })
-      delete c none (some path)
-      let s ← getS
-      (if truthy (s.nd i).oid then delete c (s.nd i).oid none else pure ())
       addChild par i
       let w ← walkM c i
       reindex c (w.map (·.1))
@@ -371,20 +375,25 @@ def rename (c : Cfg) (old new : Str) : M Unit := do
   | none =>
     delete c none (some new)
 
-/-- `_set_oid` (425-435); `oid` is not None -/
+/-- `_set_oid` (427-439); `oid` is not None.  The path is read before the previous owner of `oid` is
+    evicted; if the node went away with that owner (an ancestor), or has an id already, it is re-made -/
 def setOidNode (c : Cfg) (n : Nat) (oid : Oid) : M Unit := do
   let s ← getS
   if (s.nd n).oid = some oid then pure () else
+    let fp0 ← fullPathM c n
     delete c (some oid) none
     let s ← getS
-    match (s.nd n).oid with
-    | none =>
+    let inPlace ← (match (s.nd n).oid with
+      | none => do
+        let fp1 ← fullPathM c n               -- `node.oid is None and node.full_path() is not None`
+        pure fp1.isSome
+      | some _ => pure false)
+    if inPlace then
       check n                                     -- the oid setter (60-64)
       modS (fun s => s.setNd n { s.nd n with oid := some oid })
       modS (fun s => { s with idmap := dset s.idmap oid n })
-    | some _ =>
-      let fp ← fullPathM c n
-      match fp with
+    else
+      match fp0 with
       | none => raise .type
       | some p => do let _ ← makeNode c (s.nd n).type p (some oid)
 
@@ -499,21 +508,10 @@ def pcomps (c : Cfg) (p : Str) : List Str :=
   let np := normalizePath c p false
   compsAux c (np.length + 2) np []
 
-/-- no node on the existing part of the chain `n —ks→` holds the id `o` -/
-def ancFree (s : HC) (o : Oid) : Nat → List Str → Bool
-  | n, [] => decide ((s.nd n).oid ≠ some o)
-  | n, k :: ks =>
-    decide ((s.nd n).oid ≠ some o) &&
-      (match dget (s.nd n).children k with
-       | none => true
-       | some ch => ancFree s o ch ks)
-
-/-- target path is not the root, and the id being assigned is not held by an existing proper
-    ancestor of the target (root included) -/
+/-- target path is not the root, and the id being assigned is not the root's id -/
 def insertSafe (c : Cfg) (s : HC) (p : Str) (oid : Option Oid) : Bool :=
-  let ks := pcomps c p
-  !ks.isEmpty && (match oid with
-    | some (o + 1) => ancFree s (o + 1) 0 ks.dropLast
+  !(pcomps c p).isEmpty && (match oid with
+    | some (o + 1) => decide ((s.nd 0).oid ≠ some (o + 1))
     | _ => true)
 
 def opSafe (c : Cfg) (s : HC) : Op → Bool
